@@ -166,13 +166,38 @@ def run_chunk(chunk):
     if alt != new_text and M.recognise(pat.tree, alt) == new:
         for lid, arrangement, files, entries, explicit_cfg in itertools.islice(layouts(pat, old, new, tier, fmt), 3):
             run_project(st, pat, label, old, new, fmt, lid, "set-version-respelled", files, entries, explicit_cfg, set_version=alt)
+    # stale occurrences: the files show ANOTHER version than the config's current_version (a file that was not kept up to date,
+    # or an update that starts from a tag on another branch); every matched place must still end up at the new version
+    for k, stale in enumerate(stale_states(pat, old, new, tier)):
+        taken = 0
+        for lid, arrangement, files, entries, explicit_cfg in layouts(pat, old, new, tier, fmt):
+            if not (arrangement in ("own-lines", "several-files", "glob-entry") and (lid.endswith(":LF") or arrangement != "own-lines")):
+                continue
+            if not all(pt.compatible(f.patterns, stale, new) for f in files):
+                continue
+            run_project(st, pat, label, old, new, fmt, lid, "stale-occurrences", files, entries, explicit_cfg, stale=(k, stale))
+            taken += 1
+            if tier == "quick" and taken >= 24:
+                break
     if idx == 0:
         st.sample({"pattern": pat.text, "states": label, "format": fmt, "layouts": n})
     os.chdir("/")
     return st
 
 
-def build_project(pat, old, fmt, files, entries, explicit_cfg):
+def stale_states(pat, old, new, tier):
+    """Other states of the same pattern (from the other version cases) - what a file that lags behind, or runs ahead, shows."""
+    out = []
+    for p2, _label, a, b in pt.version_cases(tier):
+        if p2.text != pat.text:
+            continue
+        for s in (a, b):
+            if s != old and s != new and s not in out:
+                out.append(s)
+    return out[:2] if tier == "quick" else out
+
+
+def build_project(pat, old, fmt, files, entries, explicit_cfg, file_state=None):
     old_text = M.render(pat.tree, old)
     entries = list(entries)
     if any(e[0] == "README.md" for e in entries):
@@ -186,15 +211,16 @@ def build_project(pat, old, fmt, files, entries, explicit_cfg):
     tree = {fmt: pt.config_text(fmt, pat.text, old_text, entries, extra="# préambule € \U0001F680").encode("utf-8"),
             "bystander.txt": (old_text + "\n").encode()}
     for f in files:
-        tree[f.name] = f.render_old(old).encode("utf-8")
+        tree[f.name] = f.render_old(file_state or old).encode("utf-8")
     return tree, files
 
 
-def run_project(st, pat, label, old, new, fmt, lid, arrangement, files, entries, explicit_cfg, want=("occurrence",), prefix="C03", set_version=None):
+def run_project(st, pat, label, old, new, fmt, lid, arrangement, files, entries, explicit_cfg, want=("occurrence",), prefix="C03", set_version=None,
+                stale=None):
     old_text, new_text = M.render(pat.tree, old), M.render(pat.tree, new)
     if set_version is not None:
         new_text = set_version
-    tree, files = build_project(pat, old, fmt, files, entries, explicit_cfg)
+    tree, files = build_project(pat, old, fmt, files, entries, explicit_cfg, file_state=stale[1] if stale else None)
     # the property excludes surrounding text that itself matches a configured pattern: such projects are not generated
     for f in files:
         for line in f.lines:
@@ -213,6 +239,9 @@ def run_project(st, pat, label, old, new, fmt, lid, arrangement, files, entries,
     case = {"pattern": pat.text, "states": label, "old": old_text, "new": new_text, "format": fmt, "layout": lid}
     if set_version is not None:
         case["respelled"] = True
+    if stale is not None:
+        case["stale"] = stale[0]
+        case["files_show"] = M.render(pat.tree, stale[1])
     st.observe((case, o.exit, o.crashed, sorted(after.items())))
     st.state(sorted(after.items()))
     if o.exit != 0:
@@ -280,8 +309,14 @@ def replay(case, st):
                     if lid == case["layout"]:
                         if case.get("respelled"):
                             arrangement = "set-version-respelled"
+                        stale = None
+                        if "stale" in case:
+                            arrangement = "stale-occurrences"
+                            stale = (case["stale"], stale_states(pat, old, new, "thorough")[case["stale"]])
+                            if M.render(pat.tree, stale[1]) != case["files_show"]:
+                                stale = (case["stale"], stale_states(pat, old, new, "quick")[case["stale"]])
                         run_project(st, pat, label, old, new, case["format"], lid, arrangement, files, entries, explicit_cfg,
-                                    set_version=case["new"] if case.get("respelled") else None)
+                                    set_version=case["new"] if case.get("respelled") else None, stale=stale)
                         os.chdir("/")
                         return
     os.chdir("/")
